@@ -189,8 +189,15 @@ def m_index(m, idx):
 # data
 # ================================================================================================
 
-def gen_value(rng, name, typ):
+WIDE = {"chain_id": "LONG_ID", "res_name": "RESIDUE7", "atom_name": "ATOMNAME9", "element": "ELEM", "ins_code": "IC", "lbl": "label5"}
+
+
+def gen_value(rng, name, typ, wide=False):
     if typ == "str":
+        if wide and rng.random() < 0.08:
+            # wider than the default dtype of the category: legal when the whole array is created or replaced
+            # (array() and set_annotation choose a dtype that can hold the values), never used in element assignment
+            return WIDE[name]
         return rng.choice(STR_CATS[name])
     if typ == "int":
         return rng.randint(-5, 99)
@@ -227,7 +234,7 @@ def gen_bonds(rng, n, k):
 
 def gen_container(rng, kind, n, m, extras, with_bonds, with_box):
     cats = MANDATORY + list(extras)
-    ann = {c: [gen_value(rng, c, CAT_TYPES[c]) for _ in range(n)] for c in cats}
+    ann = {c: [gen_value(rng, c, CAT_TYPES[c], wide=True) for _ in range(n)] for c in cats}
     if "uid" in ann:
         ann["uid"] = [rng.randrange(1000, 9999) for _ in range(n)]
     if kind == "array":
@@ -344,7 +351,7 @@ def m_apply(ms, op):
         src = ms[op["src"]]
         if src is None or src.kind != "array" or src.n == 0:
             return None
-        if "lbl" in src.ann and any(len(v) != 3 for v in src.ann["lbl"]):
+        if "lbl" in src.ann and any(len(v) < 3 for v in src.ann["lbl"]):
             # array() sizes a string annotation after the longest present value; later, longer values would be
             # truncated by numpy (assumption 1): keep the width of 'lbl' at 3 by not rebuilding here
             return None
@@ -706,7 +713,7 @@ def generate(rng):
                 op = {"op": "annot", "r": a, "what": what, "cat": cat}
                 if what in ("set", "attr"):
                     nn = m.n if not (faulty and rng.random() < 0.25) else m.n + rng.choice([1, 2])
-                    op["values"] = [gen_value(rng, cat, CAT_TYPES[cat]) for _ in range(nn)]
+                    op["values"] = [gen_value(rng, cat, CAT_TYPES[cat], wide=True) for _ in range(nn)]
             elif r < 0.93:
                 what = rng.choice(["coord", "box", "bonds"])
                 op = {"op": "assign", "r": a, "what": what}
@@ -775,6 +782,7 @@ def np_annot(cat, values):
     t = CAT_TYPES.get(cat, "int")
     if t == "str":
         width = {"chain_id": 4, "ins_code": 1, "res_name": 5, "atom_name": 6, "element": 2, "lbl": 3}[cat]
+        width = max([width] + [len(v) for v in values])
         return np.array(values, dtype=f"U{width}")
     return np.array(values, dtype={"int": int, "float": float, "bool": bool}[t])
 
